@@ -154,6 +154,7 @@ class DbSuite:
         self.cases = cases
         self.timeout_s = timeout_s
         self.stats = {}
+        self.known_hits = []
 
     def execute(self, workdir, tag="db"):
         impl = lib.run_sharded(lib.RVH, "dbhist", self.cases, workdir, tag + "i",
@@ -196,6 +197,10 @@ class DbSuite:
                         elif o == "Y":
                             gcfacts.append((c, i, a))
                             if not a.startswith("exact#"):
+                                if leftover_after_iterator_release(a):
+                                    # KNOWN FINDING obsolete-tables-after-iterator-release
+                                    self.known_hits.append(("obsolete-tables-after-iterator-release", cid, i))
+                                    continue
                                 bad = (i, "directory contents are not exactly the needed files: %s" % a.split("#")[0])
                                 break
                         elif o == "W" and a != "ok":
@@ -240,7 +245,7 @@ class DbSuite:
             for n, (c, i, a) in enumerate(gcfacts):
                 v = gv.get("g%d" % n, "")
                 verdict = v.split(" ", 1)[1] if " " in v else v
-                if (verdict == "exact") != a.startswith("exact#"):
+                if (verdict == "exact") != a.startswith("exact#") and not leftover_after_iterator_release(a):
                     corr.append({"case": c, "impl": lib.trunc(a, 600), "model": lib.trunc(verdict, 300), "kind": "gc-model",
                                  "detail": "directory judged %s by the harness rule but %s by the extracted remove_obsolete_files model" % (a.split("#")[0], verdict)})
             self.stats["gc_model_checks"] = len(gcfacts)
@@ -287,6 +292,21 @@ class DbSuite:
                                  "detail": "contents computed from the dumped structure at op %d differ from the scan" % opi, "at": opi})
         self.stats["dumps_judged"] = len(dumps)
         return corr, prop
+
+
+def leftover_after_iterator_release(a):
+    """KNOWN FINDING obsolete-tables-after-iterator-release: the only surplus files are table files,
+    nothing is missing, only the current version is linked, an iterator has been released and
+    remove_obsolete_files has not run since (the harness compares the file system's count of
+    directory listings at the release with the count now): the tables of the version the iterator
+    pinned stay until the next flush, compaction or reopen collects them."""
+    import re
+    verdict, _, facts = a.partition("#")
+    m = re.fullmatch(r"extra\[([^\]]*)\]missing\[\]cur\[man=\d+;wal=\d+;live=1\]", verdict)
+    if not m or not facts.endswith("R[1]"):
+        return False
+    names = [x for x in m.group(1).split(";") if x]
+    return bool(names) and all(re.fullmatch(r"data/\d+\.rdb", n) for n in names)
 
 
 def descriptor_mismatch(dump, desc):
